@@ -143,3 +143,27 @@ def custom_cycles_ok(ci: int, ui: int) -> bool:
             return ret(True)
         except KeyError:
             return ret(_collide(cust))
+
+
+LENGTHS = [5, 40, 400, 4300, 4301, 6000]
+LONG_FORMS = [':nth-child(%s)', ':nth-child(%sn)', ':nth-child(2n+%s)', ':nth-last-of-type(-%sn-%s)', ':nth-child(%s of p)',
+              '[a=%s]', '#a%s', ':lang(%s)', 'a:nth-of-type(+%s)']
+
+
+def long_numbers_ok(li: int, fi: int) -> bool:
+    """
+    pre: 0 <= li < len(LENGTHS)
+    pre: 0 <= fi < len(LONG_FORMS)
+    post: _
+    """
+    # very long digit runs (beyond the interpreter's int <-> str conversion limit of 4300 digits) in An+B and elsewhere
+    li, fi = concrete(li), concrete(fi)
+    with notrace():
+        digits = '9' * LENGTHS[li]
+        pat = LONG_FORMS[fi].replace('%s', digits)
+        try:
+            sv.purge()
+            c = sv.compile(pat)
+            return ret(isinstance(c, cm.SoupSieve))
+        except DOCUMENTED:
+            return ret(True)
